@@ -88,7 +88,7 @@ V("c13-measurement-end-dropped", "C13", {"rule": "C13a", "contains": "_validate_
 V("c13-modes-upper-bound-off", "C13", {"rule": "C13a", "contains": "lt_d"},
   (SIMF, "if mode < 0 or mode >= d:", "if mode < 0 or mode > d:"))
 V("c13-validate-after-step", "C13", {"rule": "C13a", "contains": "instruction-validate"},
-  (SIMF, "            if self.config.validate:\n                instruction._validate(self._connector)\n\n            current_shots", "            current_shots"),
+  (SIMF, "                if self.config.validate:\n                    instruction._validate(self._connector)\n\n                current_shots", "                current_shots"),
   (SIMF, "            for subbranch in subbranches:\n                # NOTE", "            if self.config.validate:\n                instruction._validate(self._connector)\n\n            for subbranch in subbranches:\n                # NOTE"))
 V("c13-shots-none-refusal-dropped", "C13", {"rule": "C13a", "contains": "shots-none-refusal"},
   (SIMF, "            and shots is None\n            and not isinstance(", "            and shots is None\n            and isinstance("))
@@ -460,3 +460,23 @@ V("c12-execute-pops-measurement", "C12", {"rule": "C12c", "contains": "execute"}
   (SIMF, "        instructions: List[Instruction] = program.instructions\n", "        instructions: List[Instruction] = program.instructions\n        if instructions and shots is None:\n            instructions.append(instructions.pop())\n"))
 V("c03-samples-rounded", "C03", {"rule": "C03a", "contains": "float"},
   ("piquasso/api/result.py", "            _samples.extend([tuple(branch.outcome)] * int(branch.frequency * shots))", "            _samples.extend([tuple(branch.outcome)] * round(float(branch.frequency * shots) + 0.4))"))
+
+# --- added after the first seeded round (own variants of the same classes of change)
+V("c13-prep-rule-armed-by-gate-only", "C13", {"rule": "C13a", "contains": "complement of Preparation"},
+  (SIMF, "                if any(\n                    not isinstance(previous_instruction, Preparation)\n                    for previous_instruction in previous_instuctions\n                ):",
+   "                if any(\n                    isinstance(previous_instruction, Gate)\n                    for previous_instruction in previous_instuctions\n                ):"),
+  (SIMF, "from piquasso.api.instruction import (\n    Instruction,", "from piquasso.api.instruction import (\n    Gate,\n    Instruction,"))
+V("c16-length-based-fullness-bypass", "C16", {"rule": "C16a", "contains": "len(modes)"},
+  (GSS, "    reduced_state = state.reduced(modes)\n\n    d = reduced_state.d\n\n    hbar = config.hbar", "    reduced_state = state.reduced(modes) if len(modes) != state.d else state\n\n    d = reduced_state.d\n\n    hbar = config.hbar"))
+V("c16-complement-of-complement", "C16", {"rule": "C16b", "contains": "complement"},
+  ("piquasso/_simulators/fock/pure/state.py", "        auxiliary_modes = get_auxiliary_modes(self.d, modes)\n", "        auxiliary_modes = get_auxiliary_modes(self.d, modes)\n        modes = get_auxiliary_modes(self.d, auxiliary_modes)\n"))
+V("c16-postselected-modes-sorted", "C16", {"rule": "C16b", "contains": "_postselections"},
+  ("piquasso/_simulators/passive/state.py", "        return tuple(self._postselections.keys())", "        return tuple(sorted(self._postselections.keys()))"))
+V("c16-preserving-length-check-for-validation", "C16", "silent",
+  (GSS, "    reduced_state = state.reduced(modes)\n\n    d = reduced_state.d\n\n    hbar = config.hbar", "    reduced_state = state.reduced(modes)\n    if len(modes) == state.d:\n        pass\n\n    d = reduced_state.d\n\n    hbar = config.hbar"))
+V("c19-phase-guard-one-sided", "C19", {"rule": "C19b", "contains": "skip-guard"},
+  (DR, "    if not np.isclose(theta, 0.0):", "    if theta > 0.0:"))
+V("c19-qubits-sorted", "C19", {"rule": "C19c", "contains": "qubit-operand-order"},
+  (DR, "        qubit_indices = [qc.find_bit(q).index for q in instr_qiskit.qubits]", "        qubit_indices = sorted(qc.find_bit(q).index for q in instr_qiskit.qubits)"))
+V("c19-preserving-abs-guard", "C19", "silent",
+  (DR, "    if not np.isclose(theta, 0.0):", "    if abs(theta) > 1e-12:"))
